@@ -31,6 +31,7 @@ def main(argv: list[str] | None = None) -> int:
     except ModuleNotFoundError:
         print(f"ANALYSIS-ERROR property={prop} no checker module (property not claimed)")
         return 2
+    ctx = None
     try:
         ctx = Ctx(prop, a.root, a.tier)
         mod.run(ctx)
@@ -43,6 +44,12 @@ def main(argv: list[str] | None = None) -> int:
         return finish(ctx, t0, extra_coverage=extra)
     except AnalysisError as e:
         print(f"ANALYSIS-ERROR property={prop} {e}")
+        # clauses already decided as violated before the analysis gave up are still violations
+        if ctx is not None and any(not o.ok for o in ctx.obligations):
+            ctx.note(f"analysis stopped early: {e}")
+            rc = finish(ctx, t0)
+            if rc == 1:
+                return 1
         return 2
     except Exception:  # noqa: BLE001 - a traceback must not look like a violation (exit 1)
         traceback.print_exc()
